@@ -31,7 +31,11 @@ constexpr bool can_scale_without_overflow(Magnitude<BPs...> m, Rep value) {
         (void)value;
         return true;
     } else {
-        return std::numeric_limits<Rep>::max() / get_value<Rep>(m) >= value;
+        // If the scale factor itself cannot be represented in `Rep`, then nothing can be scaled by
+        // it.  (Asking this question must not be a hard error: it gets asked in SFINAE contexts.)
+        constexpr auto mag_value_result = detail::get_value_result<Rep>(Magnitude<BPs...>{});
+        return (mag_value_result.outcome == detail::MagRepresentationOutcome::OK) &&
+               (std::numeric_limits<Rep>::max() / mag_value_result.value >= value);
     }
 }
 
